@@ -199,8 +199,10 @@ def divmod(P, D, reverse=False):
     Q = []
     R = P
     for k in range(n):
-        if not R:
-            break
+        if len(R) < len(P) - k:
+            # the term of degree len(P) - 1 - k has already vanished
+            Q.insert(0, 0)
+            continue
         t = R[-1] / ld
         Q.insert(0, t)
         R = add(R, multiply(-t, D[k:], reverse=reverse), reverse=reverse)
